@@ -180,9 +180,16 @@ fn run_history(sim: &mut Sim, pool: &[TlDesc], tl0: usize, two: bool, steps: &[(
     };
     let mut last_post: Option<AnimationState> = None;
     let mut ok = true;
+    // `enabled` is only ever changed by the monitor's own operations
+    let mut model_enabled = true;
     for (k, (op, di)) in steps.iter().enumerate() {
         // operations between frames
         let mut expect_state = last_post;
+        match op {
+            Op::Disable => model_enabled = false,
+            Op::Enable => model_enabled = true,
+            _ => {}
+        }
         {
             let mut a = sim.app.world.get_mut::<Animator<Cv>>(e).unwrap();
             match op {
@@ -212,6 +219,11 @@ fn run_history(sim: &mut Sim, pool: &[TlDesc], tl0: usize, two: bool, steps: &[(
         }
         let pre = snap::<Cv>(sim, e);
         let pre2 = if two { Some(snap::<Dv>(sim, e)) } else { None };
+        if pre.enabled != model_enabled {
+            acc.violation("c18:enabled-flag-changed", format!("`enabled` is {} before frame {k} although the last enable/disable operation set it to {} (operation just applied: {})", pre.enabled, model_enabled, op.name()), case(k, "1 (a disabled animator changes nothing; only the user toggles `enabled`)"));
+            ok = false;
+            break;
+        }
         if let Some(s) = expect_state {
             if pre.state != s {
                 acc.violation("c18:state-changed-between-frames", format!("state is {:?} before frame {k} but was {:?} after the previous frame/operation", pre.state, s), case(k, "3 (between frames)"));
